@@ -9,11 +9,13 @@ namespace C12.W
 open Lang Spec C01.W
 
 set_option maxRecDepth 100000 in
-/-- `D_del_typing` (`D_const_after_del`): after `x = {"a": 5}; del(x.a)` the compiler still knows
-    `x.a = 5`; at run time `x.a` is `null` -/
-theorem witness_const_after_del :
-    constOf (.qvar "x" [.field [97]]) (typeSeq delVarPrefix T0 {}).2 = some (.int 5) ∧
-    (eval (.qvar "x" [.field [97]]) (evalSeq delVarPrefix (st delVarEv)).2).1 = .ok .null := by
+/-- fixed (`D_del_typing` / `D_const_after_del`; 6af54e3): after `x = {"a": 5}; del(x.a)` the compiler
+    still knew `x.a = 5` while at run time `x.a` is `null`; `DelFn::type_info` now drops the constant
+    of the variable (and the program passes every side condition of `constants_preserved_partial`) -/
+theorem fixed_const_after_del :
+    constOf (.qvar "x" [.field [97]]) (typeSeq delVarPrefix T0 {}).2 = none ∧
+    (eval (.qvar "x" [.field [97]]) (evalSeq delVarPrefix (st delVarEv)).2).1 = .ok .null ∧
+    safeSeq delVarPrefix T0 = true := by
   decide
 
 set_option maxRecDepth 100000 in
